@@ -5,7 +5,7 @@ on, the torn-tail tolerance of manifest replay, single-write transaction records
 mutate/unlink files. Does not decide: what recovery does with the bytes (value level)."""
 import re
 
-from tmpl import (order_before, follows, done_sites, start_sites, gate_false_targets, who, site, suffix,
+from tmpl import (order_before, follows, done_sites, start_sites, gate_false_targets, gate_true_targets, who, site, suffix,
                   flows_from, local_defs)
 
 SEC = 'storage::secondary::'
@@ -321,6 +321,32 @@ def is_promoted_variant(body, v, variant):
 
 def rule_r5(ctx, prog):
     """orphan vacuum at boot"""
+    # R6 ----------------------------------------------------------------------------------------------
+    R6 = 'C04-R6'
+    ctx.rule(R6, 'a torn last manifest record is tolerated by replay (R2) only because the torn bytes are gone before the next '
+                 'append: every successful path of bootstrap after Manifest::replay completes VersionManager::rewrite_changes '
+                 '(tmp file + rename, R1.f) -- or replay itself truncates the file (set_len)')
+    b = prog.body(BOOTSTRAP)
+    rp = prog.body(REPLAY)
+    if ctx.anchor(R6, BOOTSTRAP, b is not None) and ctx.anchor(R6, REPLAY, rp is not None):
+        truncates = [c for g in prog.group(rp.root) for c in g.calls if re.search(r'fs::File::set_len$', c.fn or '')]
+        a = done_sites(prog, b, 'Manifest::replay')
+        if ctx.anchor(R6, 'bootstrap:Manifest::replay', a):
+            if truncates:
+                ctx.ob(R6, 'replay·truncates-torn-tail', True, 'Manifest::replay truncates the file itself (set_len)',
+                       [site(truncates[0].body, truncates[0].bb)])
+            else:
+                mock = gate_true_targets(b, 'disable_all_disk_operation')   # mock manifest: there is no file to tear
+                follows(ctx, prog, R6, b, a, 'VersionManager::rewrite_changes', 'bootstrap:replay→rewrite_changes',
+                        what='Manifest::replay (which may have skipped a torn tail)', allowed=mock)
+        rw = prog.body(REWRITE)
+        if ctx.anchor(R6, REWRITE, rw is not None):
+            rn = [c for g in prog.group(rw.root) for c in g.calls if re.search(r'tokio::fs::rename$', c.fn or '')]
+            ro = [c for g in prog.group(rw.root) for c in g.calls if (c.fn or '').endswith('Manifest::reopen')]
+            ctx.ob(R6, 'rewrite_changes·replaces-file', bool(rn) and bool(ro),
+                   f'rewrite_changes must replace the manifest file (rename: {len(rn)} site(s)) and reopen it (reopen: {len(ro)} site(s)), '
+                   'so that later appends go to the clean file', [site(rw, 0)])
+
     R5 = 'C04-R5'
     ctx.rule(R5, 'bootstrap discovers orphan row-set directories (left by a crash before the manifest append) by enumerating '
                  'the storage directory: the path it unlinks derives from a DirEntry, under a membership test against the '
